@@ -10,6 +10,7 @@ CONSTANTS
   MCExtra = {0, 1, 2}
   MCMulti = {FALSE, TRUE}
   MCHow = {"cni", "dp", "generic"}
+  MCSteal = TRUE
   MCEniGone = TRUE
   MCEnis = {1, 2}
   BadDesign = ""
